@@ -134,3 +134,11 @@ add("C16", "fault enumeration at the h5py write boundary (every create_group "
     "Faults are exceptions at h5py write calls (process kills inside the HDF5 "
     "library are out of reach); time-stamp attributes ignored in dumps.",
     category="fault_enumeration")
+add("C15", "differential runtime oracle: real load_training_set vs a 15-line "
+    "sequential reference loader on harness-written matrices (NaN/inf "
+    "patterns, flags, subsets), unique row tags for row/response pairing, "
+    "sample-weight invariants, export -> load round trip of rating containers",
+    "Held on ~1700 matrices and 48 exported curves per quick run (bitwise "
+    "agreement with the reference; names, pairing, weights).",
+    "n >= 2 rows, >= 1 selected column, columns consisting only of +-inf "
+    "are undefined by the statement and skipped (counted).")
